@@ -152,6 +152,13 @@ def check(c):
             beta = numpy.linalg.lstsq(A, y[rows], rcond=None)[0]
             if not numpy.allclose(pred[rows].ravel(), A @ beta, atol=1e-6):
                 return dict(**{"class": "mselin-leaf-fit"}, what="predictions in leaf %d are not the least-squares fit of its rows" % leaf)
+        # the fitted model evaluated at new rows given as integers / float32: the leaf's linear function at exactly those numbers
+        Q = numpy.round(X[:12] * 3)
+        ref = m.predict(Q.astype(numpy.float64))
+        for dt in (numpy.int64, numpy.float32):
+            got = m.predict(Q.astype(dt))
+            if got.shape != ref.shape or not numpy.allclose(got, ref, atol=1e-5):
+                return dict(**{"class": "mselin-batch-dtype"}, what="rows given as %s are not evaluated like the same float64 numbers" % dt.__name__)
         return None
     if c["kind"] == "simple-leaf-mean":
         m = PiecewiseTreeRegressor(criterion="simple", max_depth=c["depth"]).fit(X, y)
